@@ -697,6 +697,15 @@ func (st *Runtime) evalPrimaryExpressionGroup(node Expression) reflect.Value {
 	case NodeSliceExpr:
 		node := node.(*SliceExprNode)
 		baseExpression := st.evalPrimaryExpressionGroup(node.Base)
+		switch baseExpression.Kind() {
+		case reflect.Slice, reflect.String:
+		case reflect.Array:
+			if !baseExpression.CanAddr() {
+				node.errorf("cannot slice unaddressable array of type %s", baseExpression.Type())
+			}
+		default:
+			node.errorf("cannot slice value of type %s", getTypeString(baseExpression))
+		}
 
 		var index, length int
 		if node.Index != nil {
@@ -719,6 +728,13 @@ func (st *Runtime) evalPrimaryExpressionGroup(node Expression) reflect.Value {
 			length = baseExpression.Len()
 		}
 
+		max := baseExpression.Len()
+		if baseExpression.Kind() == reflect.Slice {
+			max = baseExpression.Cap()
+		}
+		if index < 0 || length < index || length > max {
+			node.errorf("slice bounds out of range [%d:%d] with capacity %d", index, length, max)
+		}
 		return baseExpression.Slice(index, length)
 	}
 	return st.evalBaseExpressionGroup(node)
